@@ -429,6 +429,7 @@ func (x *fx) next(i *ssa.Next) {
 	e.assumeWF(k, mt.Key(), st.alloc)
 	st.ghost[rec.ghost] = e.define("seen", "(Array "+ks+" Bool)", fmt.Sprintf("(ite %s (store %s %s true) %s)", ok, seen, k, seen))
 	x.tuples[i] = []Term{ok, k, v}
+	x.keyFns(i, st, ok, k, ks)
 }
 
 func (x *fx) slice(i *ssa.Slice) {
@@ -733,4 +734,48 @@ func (x *fx) binop(i *ssa.BinOp) {
 		return
 	}
 	x.vals[i] = e.define(i.Name(), e.S.sortOf(i.Type()), r)
+}
+
+// keyFns defines, for the key of this iteration, the point of every `keyfn` of the loop whose header holds this Next.
+func (x *fx) keyFns(i *ssa.Next, st *State, ok, k Term, keySort string) {
+	e := x.e
+	if x.fc == nil {
+		return
+	}
+	for _, li := range x.loopOrd {
+		if li.header != i.Block() {
+			continue
+		}
+		lc := x.fc.Loops[li.ordinal]
+		if lc == nil || len(lc.KeyFns) == 0 {
+			continue
+		}
+		for _, other := range x.loopOrd {
+			if other != li && other.inLoop[li.header] {
+				e.bindingErrorText(x.fn, "keyfn", lc.KeyFns[0].Text, fmt.Errorf("keyfn on a loop nested in another loop (its points could clash between executions)"))
+				return
+			}
+		}
+		env := x.envAt(st, li.header, li.phiConst, false)
+		env.loopSt = li.entryState
+		for _, kf := range lc.KeyFns {
+			name := q("gf:" + kf.Name)
+			decl := fmt.Sprintf("(declare-fun %s (%s) Int)", name, keySort)
+			have := false
+			for _, d := range e.S.extraDecls {
+				if d == decl {
+					have = true
+				}
+			}
+			if !have {
+				e.S.extraDecls = append(e.S.extraDecls, decl)
+			}
+			vv, err := env.eval(kf.Val)
+			if err != nil {
+				e.bindingErrorText(x.fn, "keyfn:"+kf.Name, kf.Text, err)
+				continue
+			}
+			e.assume(implies(x.curReach, fmt.Sprintf("(=> %s (= (%s %s) %s))", ok, name, k, vv.T)))
+		}
+	}
 }
